@@ -37,7 +37,7 @@ claim("C18", "proof", "contract-based frame verification by a modular effect ana
 claim("C20", "proof", T1 + " (token-stream ghost state; lenient abstraction of non-token code); " + T2,
       "Proved (T1): every while loop of the NEXUS reader and NexusTokenizer.skip_to_semicolon makes progress on the measure "
       "(tokens left) + (0 if eof else 1) -- no input can hang them; the NEWICK recursive descent (NewickReader._parse_tree_statement, "
-      "_parse_tree_node_description incl. its unbounded `for count in it.count()` loop, tree_iter, the one-tree-at-a-time iterator) makes "
+      "_parse_tree_node_description incl. its unbounded `for count in it.count()` loop, tree_iter, the one-tree-at-a-time iterators of both formats) makes "
       "progress in every loop and recurses only on a strictly smaller measure, and a statement is completed / a tree returned only after a "
       "token was consumed; no method is called on a token that may be None; every raise statement of the "
       "reader modules is of the DataParseError family. Bounded (T2): every truncation and single edit of valid documents, all four formats.",
@@ -50,10 +50,12 @@ claim("C20", "proof", T1 + " (token-stream ghost state; lenient abstraction of n
 claim("C03", "proof", T1 + " (theory B: exact reference lists + ghost position/owner maps); " + T2,
       "Proved (T1, all heaps satisfying the stated list invariants): exact state-transformer contracts of Node.add_child, insert_child, "
       "remove_child (plain removal), _set_parent_node, Edge._set_tail_node/_get_tail_node, clear_child_nodes; Edge.invert (tail a parentless node, as "
-      "Tree.reseed_at calls it) and Edge.collapse (loop invariant: children spliced in place, siblings shifted), each with frames and native "
+      "Tree.reseed_at calls it) and Edge.collapse (loop invariant: children spliced in place, siblings shifted); on top of them Node.new_child / insert_new_child (the "
+      "child is a newly allocated node, listed once at the stated position, with self as parent) and Node.set_child_nodes for any iterable of nodes (exactly the nodes "
+      "given are children, each once, each with self as parent), each with frames and native "
       "run-time validation on every forest with <= 4 leaves. Bounded (T2): every history of <= 3 operations from every small tree, acyclicity, "
       "reachability, leaf-taxon multisets, bipartition freshness.",
-      "acyclicity/reachability are not modelled at T1; composite operations (reseed_at, prune, suppress_unifurcations, encode) are bounded only",
+      "acyclicity/reachability are not modelled at T1; Node.__init__ is an ASSUMED allocation contract; composite operations (reseed_at, prune, suppress_unifurcations, encode) are bounded only",
       "DESIGN.md section 5 C03")
 claim("C04", "proof", T1 + " (sets of split masks; default-argument and staleness obligations; Lean 4 + Mathlib metric lemmas); " + T2,
       "Proved (T1): false_positives_and_negatives returns (|S_cmp - S_ref|, |S_ref - S_cmp|) over the encodings current AFTER the re-encoding it performs "
